@@ -17,7 +17,7 @@ RULE = ("(a) full product kind x position x required x nullable x literal_enums;
         "requiredness patterns; (c) deviation-bounded builder (d<=2 quick, d<=3 thorough) over schema / property / operation / tag / "
         "parameter names from the identifier-hostile alphabet, reference-graph shape, parameter location, request and response "
         "media types, metadata flavour, docstrings_on_attributes, literal_enums; (d) every small reference graph (2 schemas x any of the 4 ordered edges, 3 schemas x <=2 (thorough <=3) edges, edge kinds property / items / union member / additionalProperties / allOf parent, forward and reversed declaration, unrelated and suffix/prefix-related names); (e) the core matrix also declared as OpenAPI 3.0.3 where nothing 3.1-only is used, positions include path-item level parameters shared by two operations; (g) every ordered pair (thorough: triple) of 4 related documents regenerated into one directory with overwrite; (f) model pairs x how the model is used (component only, multipart / form body, JSON body of one operation and multipart body of another); non-trivial = accepted without error-level "
-        "diagnostic and at least one non-default feature")
+        "diagnostic and at least one non-default feature; builder documents also vary the description ending (quote, backslash, apostrophe, newline) and carry date-time / uuid attributes after the named ones")
 FLOOR = 0.5
 ASSUMPTIONS = ["CPython's compile/import/symtable and tomllib decide validity", "names stay inside the quote-free alphabet C01 states"]
 
